@@ -61,6 +61,19 @@ the wrong map only go wrong on such blocks.  quick: rounds over all mnemonics in
 the ISA's slice is used; thorough: every spec, three rounds.  The re-evaluation family is signed per ISA *and
 mnemonic* (`C02:<isa>:<mnemonic>:semantics-depend-on-the-map-built-so-far`).
 
+Width boundaries (phase 1d, own part of the budget, runs first): the three ordinary states hold small positive
+values (bit 31 of a register is never set, shift counts are whatever the random bytes give).  For every spec of a
+mnemonic whose semantics or decoded operands hold a shift / rotate operator: a sample without memory operand, its
+immediate positions (found by decoding: a named field of the spec or a byte after its fixed part whose change keeps
+mnemonic, length, kinds and registers of the operands and changes their text), each immediate set to 0, 1, w-1, w,
+w+1, 31, all-ones for the widths w of the operands (immediates that feed a shift count first), the same behind every
+prefix that changes the operand widths (x86 0x66), the register-count forms as sampled, and short chains of these
+instructions — all from the boundary states BOUNDARY_SIDS (sign bit of every 8/16/32/64-bit sub-width set; all-ones;
+four mixed states with shift counts, only-the-top-bit, largest positive, 0, 1 in neighbouring registers).
+The mechanism check of the signedness-flag family additionally requires that the world in which the difference
+disappears leaves the value of step-by-step execution unchanged (reading constants as unsigned turns an arithmetic
+shift of a constant into a logical one on route B: such an agreement explains nothing).
+
 Nothing here depends on the Lean model: the only things trusted are amoco's own public API
 (mapper.__setitem__/__getitem__, `>>`, MemoryMap.write/read) used to build/read concrete states.
 
@@ -142,6 +155,159 @@ HIGH_N = 0x10000         # window 2: the top HIGH_N bytes of the address space (
 BASE_ADDR = 0x1000       # address of the first instruction = value of the pc register
 NSTATES = 3
 UNMAPPED = -1
+
+
+# Boundary states (phase 1d), ids NSTATES.. : register values drawn from boundary classes per operand width.
+#   3: the sign bit of every 8/16/32/64-bit sub-width set (each byte 0x80 | something), neither 0 nor all-ones
+#   4: all-ones
+#   5..8: mixed, a different class for neighbouring registers (so that the operand of a register-count shift and
+#         its count fall into different classes): sign pattern / a shift count from COUNT_CLASSES / one of
+#         {only the top bit, largest positive, 0x80, 0x8000, 0x80000000, 0, 1, 0x7f} / all-ones
+# The value is a function of (size, state id, index of the register) only: a replay needs nothing else.
+BOUNDARY_SIDS = [3, 4, 5, 6, 7, 8]
+COUNT_CLASSES = [0, 1, 7, 8, 9, 15, 16, 17, 31, 32, 33, 63, 64, 65]
+
+
+def boundary_value(size, sid, j):
+    mask = (1 << size) - 1
+    nb = (size + 7) // 8
+    signpat = sum((0x80 | ((j * 5 + 3 * k + 1) & 0x7F)) << (8 * k) for k in range(nb)) & mask
+    if sid == 3:
+        return signpat
+    if sid == 4:
+        return mask
+    c = (j + sid) % 4
+    if c == 0:
+        return signpat
+    if c == 1:
+        return COUNT_CLASSES[(j // 4 + 3 * sid) % len(COUNT_CLASSES)] & mask
+    if c == 2:
+        return [1 << (size - 1), (1 << (size - 1)) - 1, 0x80, 0x8000, 0x80000000, 0, 1, 0x7F][(j // 4 + sid) % 8] & mask
+    return mask
+
+
+def immediate_classes(widths, nbits):
+    """boundary values of an immediate of nbits bits next to operands of the given widths: 0, 1, width-1, width,
+    width+1 for each width, 31 (and 63 when a 64-bit operand is there), all-ones of the field"""
+    vals = [0, 1]
+    for w in sorted(widths):
+        vals += [w - 1, w, w + 1]
+    vals += [31, (1 << nbits) - 1]
+    if any(w >= 64 for w in widths):
+        vals.append(63)
+    out = []
+    for v in vals:
+        v &= (1 << nbits) - 1
+        if v not in out:
+            out.append(v)
+    return out
+
+
+SHIFT_OPS = (_E.OP_LSL, _E.OP_LSR, _E.OP_ASR, _E.OP_ROR, _E.OP_ROL)
+
+
+def _shifts_in(e, depth=0):
+    """does the expression contain a shift / rotate operator?"""
+    try:
+        if depth > 12:
+            return False
+        if e._is_eqn:
+            if getattr(e.op, "symbol", None) in SHIFT_OPS:
+                return True
+            l = getattr(e, "l", None)
+            return (l is not None and _shifts_in(l, depth + 1)) or _shifts_in(e.r, depth + 1)
+        if e._is_tst:
+            return _shifts_in(e.tst, depth + 1) or _shifts_in(e.l, depth + 1) or _shifts_in(e.r, depth + 1)
+        if e._is_slc:
+            return _shifts_in(e.x, depth + 1)
+        if e._is_cmp:
+            return any(_shifts_in(p, depth + 1) for p in e.parts.values())
+        if e._is_mem:
+            return _shifts_in(e.a.base, depth + 1)
+        if e._is_ptr:
+            return _shifts_in(e.base, depth + 1)
+        if e._is_vec:
+            return any(_shifts_in(p, depth + 1) for p in e.l)
+    except Exception:
+        pass
+    return False
+
+
+def _shift_counts(e, acc, depth=0):
+    """adds (operator, text of the count) of every shift / rotate operator of the expression to acc"""
+    try:
+        if depth > 12:
+            return
+        if e._is_eqn:
+            if getattr(e.op, "symbol", None) in SHIFT_OPS:
+                acc.add((e.op.symbol, str(e.r)))
+            if getattr(e, "l", None) is not None:
+                _shift_counts(e.l, acc, depth + 1)
+            _shift_counts(e.r, acc, depth + 1)
+        elif e._is_tst:
+            for x in (e.tst, e.l, e.r):
+                _shift_counts(x, acc, depth + 1)
+        elif e._is_slc:
+            _shift_counts(e.x, acc, depth + 1)
+        elif e._is_cmp:
+            for x in e.parts.values():
+                _shift_counts(x, acc, depth + 1)
+        elif e._is_mem:
+            _shift_counts(e.a.base, acc, depth + 1)
+        elif e._is_ptr:
+            _shift_counts(e.base, acc, depth + 1)
+        elif e._is_vec:
+            for x in e.l:
+                _shift_counts(x, acc, depth + 1)
+    except Exception:
+        pass
+
+
+def map_shift_counts(m):
+    acc = set()
+    try:
+        for loc, v in m:
+            _shift_counts(v, acc)
+            if loc._is_ptr:
+                _shift_counts(loc.base, acc)
+        for k, z in m.mmap._zones.items():
+            if k is not None:
+                _shift_counts(k, acc)
+            for o in z._map:
+                if not o.data._is_raw:
+                    _shift_counts(o.data.val, acc)
+    except Exception:
+        pass
+    return acc
+
+
+def map_has_shift(m):
+    """a shift / rotate operator occurs in a value, a store address or a stored value of the map"""
+    try:
+        for loc, v in m:
+            if _shifts_in(v) or (loc._is_ptr and _shifts_in(loc.base)):
+                return True
+        for k, z in m.mmap._zones.items():
+            if k is not None and _shifts_in(k):
+                return True
+            for o in z._map:
+                if not o.data._is_raw and _shifts_in(o.data.val):
+                    return True
+    except Exception:
+        pass
+    return False
+
+
+def map_touches_memory(m):
+    try:
+        if len(m.mmap._zones) > 1 or m.mmap._zones[None]._map:
+            return True
+        for loc, v in m:
+            if loc._is_ptr or any(x._is_mem for x in locations_of(v)):
+                return True
+    except Exception:
+        return True
+    return False
 
 
 class _Timeout(BaseException):
@@ -250,6 +416,7 @@ class Ctx(object):
         self.wtab = {}
         self.wouts = {}
         self.dropped = {}
+        self.shifty = {}        # mode -> mnemonics with a sample whose map holds a shift / rotate operator
         self.sigs = []          # shrunk failures already seen: (mnemonics tuple, class, failing settings)
         self.mnems = set()
 
@@ -312,6 +479,9 @@ class Ctx(object):
                             pass
                     cats[cat].append(s)
                     usable.append((i.mnemonic, len(usable), s))
+                    # the decoded operands count too: arm builds `r1 >> 5` at decode time
+                    if map_has_shift(m) or any(_shifts_in(o) for o in i.operands if isinstance(o, exp)):
+                        self.shifty.setdefault(mode, set()).add(i.mnemonic)
                     break
             self.pools[mode] = (cats, pfx)
             self.usable[mode] = usable
@@ -600,6 +770,173 @@ class Ctx(object):
         outs = self.wouts[key]
         return outs is not None and not (outs & (keep - {b}))
 
+    # -- immediates at boundary values (phase 1d) ---------------------------------------------
+    def _opsig(self, i):
+        """(kinds and sizes of the operands, registers they mention), text of the operands"""
+        kinds, regs, txt = [], set(), []
+        for o in i.operands:
+            txt.append(str(o))
+            if not isinstance(o, exp):
+                kinds.append(type(o).__name__)
+                continue
+            kinds.append((bool(o._is_cst), bool(o._is_mem), bool(o._is_ptr), o.size))
+            todo = [o]
+            while todo:
+                e = todo.pop()
+                for l in locations_of(e):
+                    if l._is_mem:
+                        todo.append(l.a.base)
+                    elif l._is_ptr:
+                        todo.append(l.base)
+                    else:
+                        regs.add(_regname(l))
+        return (i.mnemonic, len(i.bytes), tuple(kinds), frozenset(regs)), tuple(txt)
+
+    def _decode1(self, mode, bs):
+        try:
+            self.restore(mode)
+            i = self.I.dis(bs)
+            if i is None or ("i_%s" % i.mnemonic) not in self.uarch:
+                return None
+            return i
+        except Exception:
+            return None
+
+    def _runs_alone(self, mode, bs):
+        """the map of the instruction alone on an empty mapper, None when it raises"""
+        try:
+            self.restore(mode)
+            i = self.I.dis(bs)
+            i.address = cst(BASE_ADDR, self.pcsize)
+            m = mapper()
+            i(m)
+            return m
+        except Exception:
+            return None
+        finally:
+            self.restore(mode)
+
+    def immediate_mutants(self, mode, s, r, maxn=None, pfx=None, ntries=12):
+        """a sample of spec s (registers only when there is one: the boundary states hold large values, a memory
+        operand would leave the windows) and copies of it whose immediates take boundary values.
+        An *immediate position* is found by decoding, not by name: a named bit field of the spec, or a byte
+        after the spec's fixed part, such that changing it keeps the mnemonic, the length, the kinds/sizes of
+        the operands and the registers they mention, and changes the text of the operands.
+        returns (sample bytes, [(bytes, position, value, feeds a shift count?)], operand widths, touches memory?) or None"""
+        got, touches = None, True
+        for _t in range(ntries):
+            g2 = self.sample_spec(mode, s, r, pfx)
+            if g2 is None:
+                continue
+            if not map_touches_memory(g2[2]):
+                got, touches = g2, False
+                break
+            elif got is None or (not self.window_friendly(got[2]) and self.window_friendly(g2[2])):
+                got = g2
+        if got is None:
+            return None
+        bs, i0, _m = got
+        try:
+            sig0, txt0 = self._opsig(i0)
+        except Exception:
+            return bs, [], set(), touches
+        widths = set(o.size for o in i0.operands if isinstance(o, exp) and not o._is_cst and o.size in (8, 16, 32, 64))
+        if not widths:
+            widths = {min(64, max(8, self.psize))}
+        n = s.fix.size
+        nfix = n // 8
+        # the spec may sit after prefix bytes: find where its fixed part starts
+        off = None
+        positions = []
+        if len(bs) >= nfix and nfix:
+            # (prefixes, when any, come first: the spec's word is the nfix bytes that match fix/mask)
+            for start in range(0, len(bs) - nfix + 1):
+                w = int.from_bytes(bs[start:start + nfix][::self.e], "little")
+                if (w & s.mask.ival) == (s.fix.ival & s.mask.ival):
+                    off = start
+                    break
+        if off is not None:
+            try:
+                rs = isa.reflect_spec(s)
+                fields = sorted(set((f[3], f[4]) for f in rs["extsA"] + rs["extsF"]
+                                    if isinstance(f[3], int) and isinstance(f[4], int) and 0 <= f[3] < f[4] <= n and f[4] - f[3] <= 16))
+            except Exception:
+                fields = []
+            free = ~s.mask.ival & ((1 << n) - 1)
+            for lo, hi in fields:
+                fm = ((1 << (hi - lo)) - 1) << lo
+                if fm & free == fm:
+                    positions.append(("field", lo, hi))
+            for k in range(off + nfix, len(bs)):
+                positions.append(("byte", k, k + 1))
+        else:
+            for k in range(1, len(bs)):
+                positions.append(("byte", k, k + 1))
+
+        def put(pos, v):
+            kind, lo, hi = pos
+            if kind == "byte":
+                return bs[:lo] + bytes([v & 0xFF]) + bs[hi:]
+            w = int.from_bytes(bs[off:off + nfix][::self.e], "little")
+            fm = ((1 << (hi - lo)) - 1) << lo
+            w = (w & ~fm) | ((v << lo) & fm)
+            return bs[:off] + w.to_bytes(nfix, "little")[::self.e] + bs[off + nfix:]
+
+        def cur(pos):
+            kind, lo, hi = pos
+            if kind == "byte":
+                return bs[lo]
+            w = int.from_bytes(bs[off:off + nfix][::self.e], "little")
+            return (w >> lo) & ((1 << (hi - lo)) - 1)
+
+        imms = []
+        for pos in positions[:24]:
+            nb = 8 if pos[0] == "byte" else pos[2] - pos[1]
+            c = cur(pos)
+            ok, bad = 0, 0
+            for pv in dict.fromkeys([c ^ 1, c ^ ((1 << nb) - 1), (c + 2) & ((1 << nb) - 1)]):
+                if pv == c:
+                    continue
+                i2 = self._decode1(mode, put(pos, pv))
+                if i2 is None or i2.mnemonic != i0.mnemonic:
+                    continue
+                try:
+                    sig2, txt2 = self._opsig(i2)
+                except Exception:
+                    bad += 1
+                    continue
+                if sig2 != sig0:
+                    bad += 1
+                elif txt2 != txt0:
+                    ok += 1
+            if ok and not bad:
+                # does the immediate feed a shift count?  (the shift operators of the map and their counts
+                # change with it: `sar al,1` / `sar al,2`, `add r0, r1, r2 lsl #1` / `… lsl #2`)
+                feeds = False
+                try:
+                    ma, mb_ = self._runs_alone(mode, put(pos, 1)), self._runs_alone(mode, put(pos, 2 & ((1 << nb) - 1)))
+                    feeds = ma is not None and mb_ is not None and map_shift_counts(ma) != map_shift_counts(mb_)
+                except Exception:
+                    pass
+                imms.append((pos, nb, feeds))
+        out, seen = [], {bytes(bs)}
+        # narrow immediates first (shift counts), then the low byte of wider ones; per position the classes
+        # around the narrowest operand width first
+        imms.sort(key=lambda x: not x[2])
+        for pos, nb, feeds in imms:
+            for v in immediate_classes(widths, nb):
+                mb = put(pos, v)
+                if mb in seen:
+                    continue
+                seen.add(mb)
+                out.append((mb, pos, v, feeds))
+        if maxn is not None and len(out) > maxn:
+            wmin = min(widths)
+            pri = {wmin: 0, wmin + 1: 1, 31: 2, wmin - 1: 3, 1: 4, 0: 5}
+            out.sort(key=lambda x: (not x[3], pri.get(x[2], 9), r.random()))
+            out = out[:maxn]
+        return bs, out, widths, touches
+
     def gen_pair(self, mode, s, r, nwriters=300):
         """[X, Y]: Y a fresh sample of spec s, X an instruction that writes a register Y reads, if possible
         one of self_writers() — the interleaving on which semantics that evaluate an operand twice go wrong"""
@@ -651,6 +988,8 @@ class Ctx(object):
             v = BASE_ADDR
         elif r_.ref.lower() in ("npc", "pc'"):
             v = BASE_ADDR + 4
+        elif sid >= NSTATES:
+            v = boundary_value(r_.size, sid, j)      # boundary classes per width (phase 1d)
         elif sid == 0:
             v = (j * 37 + 11) & 0xFF                 # small: shift amounts, low window
         elif sid == 1:
@@ -757,7 +1096,8 @@ def mem_delta(ctx, img):
 
 
 class Res(object):
-    __slots__ = ("exc", "diffs", "nsym_reg", "nsym_mem", "ncmp", "nontrivial", "bsym", "memskip", "unmapped", "out_of_scope", "same", "bmem")
+    __slots__ = ("exc", "diffs", "nsym_reg", "nsym_mem", "ncmp", "nontrivial", "bsym", "memskip", "unmapped", "out_of_scope", "same", "bmem",
+                 "bregs")
 
     def __init__(self):
         self.exc = None          # (route, exception class name, message)
@@ -767,6 +1107,7 @@ class Res(object):
         self.memskip = None
         self.same = set()         # registers on which both routes give the same constant
         self.bmem = {}            # route B: address -> byte for every byte that differs from the start state
+        self.bregs = {}           # route B: register -> constant
         self.out_of_scope = 0     # differences dropped: the state violates the no-aliasing assumption
 
 
@@ -915,6 +1256,7 @@ def evaluate(ctx, mode, bss, sids, setting):
                 res.nsym_reg += 1
             else:
                 res.ncmp += 1
+                res.bregs[r_.ref] = b
                 if a != b:
                     res.diffs.append((reg_class(r_), r_.ref, a, b, r_.ref))
                 else:
@@ -1037,22 +1379,28 @@ class _World(object):
         return False
 
 
-def _agree(rs, cls, key):
-    """both routes gave the same constant at `key` in evaluation rs"""
+def _agree(rs, cls, key, expected=None):
+    """both routes gave the same constant at `key` in evaluation rs (and, when `expected` is given, that constant
+    is the one step-by-step execution gives in the real world: a world in which step-by-step execution itself
+    computes something else — an arithmetic shift of a constant read as unsigned — explains nothing)"""
     if rs.exc is not None or rs.out_of_scope or any(d[0] == cls for d in rs.diffs):
         return False
+    if expected is not None:
+        got = rs.bmem.get(key) if cls == "mem" else rs.bregs.get(key)
+        if got != expected:
+            return False
     # memory: no byte differs any more, and step-by-step execution still writes this very byte (in the
     # other world the stores may have moved elsewhere, even out of the compared windows, on both routes)
     return (rs.memskip is None and isinstance(rs.bmem.get(key), int)) if cls == "mem" else (key in rs.same)
 
 
-def signedness_world(ctx, mode, bss, sid, setting, cls, key):
+def signedness_world(ctx, mode, bss, sid, setting, cls, key, expected=None):
     """'u' / 's' when the difference at `key` disappears once every constant is read as unsigned / signed"""
     for w in ("u", "s"):
         try:
             with _World(w):
                 rs = evaluate(ctx, mode, bss, [sid], setting)[0]
-            if _agree(rs, cls, key):
+            if _agree(rs, cls, key, expected):
                 return w
         except _Timeout:
             raise
@@ -1237,7 +1585,7 @@ def _handle_class(ck, ctx, stats, mode, bss, mn, sid, setting, cls, res, allow_s
             w = None
         else:
             # (2) the signedness flag
-            w = signedness_world(ctx, mode, cur, sid, setting, cls, d[4])
+            w = signedness_world(ctx, mode, cur, sid, setting, cls, d[4], expected=d[3])
         if w is None and sig.startswith("C02:%s:%s:" % (ctx.name, "+".join(cmn))) and len(cur) > 1 and rs.exc is None and \
                 split_agrees(ctx, mode, cur, sid, setting, cls, [x[4] for x in rs.diffs if x[0] == cls][:16]):
             sig = family_signature(ctx.name, cmn[-1], cls, REEVAL_SUFFIX)
@@ -1376,11 +1724,18 @@ class _Alarm(object):
                     signal.setitimer(signal.ITIMER_REAL, 0)
                 return (True, res)
             except _Timeout:
+                self.armed = False          # first thing: the repeating timer may fire again at any bytecode
                 if done:
                     continue
-                self.disarm()
+                while True:
+                    try:
+                        self.disarm()
+                        break
+                    except _Timeout:
+                        continue
                 return (False, None)
             except BaseException:
+                self.armed = False
                 self.disarm()
                 raise
 
@@ -1407,10 +1762,13 @@ def _new_isa_stats():
             "mem_skipped": 0, "timeouts": 0, "by_length": {}, "mnemonics": 0, "dropped_instructions": {}}
 
 
-def run(ck, tier, r, budget_s):
+def run(ck, tier, r, budget_s, boundary_budget_s=0.0):
+    """boundary_budget_s: part of budget_s reserved for phase 1d (operands / immediates at width boundaries);
+    what an ISA does not use of its share rolls over to the ISAs after it"""
     t0 = time.time()
     quick = tier == "quick"
     deadline = t0 + 0.93 * budget_s - 1.0
+    b_left = [max(0.0, float(boundary_budget_s))]
     case_timeout = 1.5 if quick else 10.0
     stats = {"per_isa": {}, "signatures": {}, "unshrunk": [], "skipped_isas": {}}
     saved = (conf.Cas.noaliasing, conf.Cas.memtrace)
@@ -1436,7 +1794,9 @@ def run(ck, tier, r, budget_s):
                 stats["skipped_isas"][name] = "budget used"
                 ck.count("isa-skipped(budget)")
                 continue
-            slice_s = (deadline - now) * WEIGHT.get(name, 1.0) / sum(WEIGHT.get(n, 1.0) for n in names[idx:])
+            share = WEIGHT.get(name, 1.0) / sum(WEIGHT.get(n, 1.0) for n in names[idx:])
+            b_share = min(b_left[0] * share, max(0.0, deadline - now))
+            slice_s = max(0.0, deadline - now - b_left[0]) * share + b_share
             conf.Cas.noaliasing, conf.Cas.memtrace = True, True
             def _setup():
                 c = Ctx(name, isas[name], membank)
@@ -1455,7 +1815,9 @@ def run(ck, tier, r, budget_s):
                 continue
             st = stats["per_isa"][name] = _new_isa_stats()
             st["setup_s"] = round(time.time() - now, 2)
-            _run_isa(ck, ctx, st, stats, r, quick, now, slice_s, min(deadline, now + slice_s), alarm, case_timeout, sampled)
+            _run_isa(ck, ctx, st, stats, r, quick, now, slice_s, min(deadline, now + slice_s), alarm, case_timeout, sampled,
+                     boundary_s=b_share)
+            b_left[0] = max(0.0, b_left[0] - st.get("phase1d_s", 0.0))
             st["mnemonics"] = len(ctx.mnems)
             st["dropped_instructions"] = dict(ctx.dropped)
             st["wall_s"] = round(time.time() - now, 2)
@@ -1479,7 +1841,7 @@ def run(ck, tier, r, budget_s):
     return stats
 
 
-def _run_isa(ck, ctx, st, stats, r, quick, start, slice_s, slice_end, alarm, case_timeout, sampled):
+def _run_isa(ck, ctx, st, stats, r, quick, start, slice_s, slice_end, alarm, case_timeout, sampled, boundary_s=0.0):
     name = ctx.name
     shrink_t = [0.0]
     maxlen = [8]
@@ -1558,6 +1920,129 @@ def _run_isa(ck, ctx, st, stats, r, quick, start, slice_s, slice_end, alarm, cas
         return True
 
     nseq = 0
+    # phase 1d (runs first, on its own budget `boundary_s`): operands and immediates at the boundaries of the
+    # operand widths.  Every spec of a mnemonic whose semantics (or decoded operands) hold a shift / rotate operator:
+    # a sample (registers only when possible), its immediate positions found by decoding (Ctx.immediate_mutants),
+    # every immediate set to 0, 1, width-1, width, width+1, 31, all-ones for the widths of its operands, each such
+    # instruction alone from the boundary states (sign bit of every sub-width set / all-ones / mixed with shift
+    # counts …, see BOUNDARY_SIDS).  Specs without an immediate (register counts) run as sampled from the boundary
+    # states, and short chains of the instructions used so far (a shifted value feeds the next shift) close the phase.
+    if boundary_s > 0:
+        tb0 = time.time()
+        tb_end = tb0 + boundary_s
+        rb = rng("C02-isa-boundary-" + name)
+        btodo = []
+        for mode in ctx.modes:
+            sh = ctx.shifty.get(mode, set())
+            for mnem, _, sp in ctx.usable.get(mode, []):
+                if mnem in sh:
+                    btodo.append((mode, mnem, sp))
+        rb.shuffle(btodo)
+        ck.count("phase1d-shift-specs.%s" % name, len(btodo))
+        later, later2, pool, kk, nq = [], [], [], [0], [nseq]
+        pfx_seen = {}
+
+        def bsids(mem=False, imm=False):
+            # one of the two uniform states (all sign bits / all-ones) and one mixed state; thorough: all.
+            # An instruction with a memory operand runs from the ordinary states too (their registers point into
+            # the windows, whose bytes are arbitrary)
+            if not quick:
+                return list(BOUNDARY_SIDS) + (list(range(NSTATES)) if mem else [])
+            if mem:
+                return [kk[0] % NSTATES, 3 + kk[0] % 2]
+            if imm:
+                # quick, an immediate at a boundary value: one uniform state, every fourth time a mixed one as well
+                return [3 + kk[0] % 2] + ([5 + (kk[0] // 4) % 4] if kk[0] % 4 == 3 else [])
+            return [3 + kk[0] % 2, 5 + kk[0] % 4]
+
+        def run_mutants(mode, muts, widths, reserve, mem=False):
+            wmin = min(widths)
+            for mb, pos, v, feeds in muts:
+                if time.time() >= tb_end - reserve * boundary_s:
+                    break
+                if ctx._runs_alone(mode, mb) is None:
+                    ck.count("phase1d-mutant-dropped(raises or does not decode)")
+                    continue
+                ck.count("phase1d-immediate.%s" % ("0" if v == 0 else "1" if v == 1 else "width-1" if v == wmin - 1 else "width" if v == wmin
+                                                   else "width+1" if v == wmin + 1 else "31" if v == 31 else "other-width-or-all-ones"))
+                ck.count("phase1d-operand-width.%d" % wmin)
+                nq[0] += 1
+                kk[0] += 1
+                one_sequence(mode, [mb], nq[0], sids=bsids(mem, True))
+                if feeds and not mem and len(pool) < 64:
+                    pool.append((mode, mb))
+        for mode, mnem, sp in btodo:
+            if time.time() >= tb_end - 0.25 * boundary_s:
+                ck.count("phase1d-cut(budget).%s" % name)
+                break
+            try:
+                ok, g = alarm.guarded(case_timeout, ctx.immediate_mutants, mode, sp, rb, 5 if quick else None)
+            except Exception:
+                ok, g = True, None
+            if not ok or g is None:
+                ck.count("phase1d-no-sample")
+                continue
+            bs, muts, widths, mem = g
+            if not muts:
+                later.append((mode, bs, mem))
+                continue
+            if not any(x[3] for x in muts):
+                # immediates that are not shift counts (add eax, imm: the shifts are in the flags): after the others
+                later2.append((mode, muts[:3 if quick else None], widths, mem))
+                continue
+            ck.count("phase1d-specs-with-immediate-shift-count.%s" % name)
+            if mem:
+                ck.count("phase1d-sample-with-memory-operand")
+            run_mutants(mode, muts, widths, 0.25, mem)
+            # the same spec behind each prefix that changes the widths of the operands (x86: 16-bit forms)
+            # (a prefix tried on three specs without ever changing the widths is not tried again)
+            pf = [x for x in ctx.pools[mode][1] if pfx_seen.get(id(x), [0, 0])[1] or pfx_seen.get(id(x), [0, 0])[0] < 3]
+            rb.shuffle(pf)
+            for p_ in pf:
+                if time.time() >= tb_end - 0.25 * boundary_s:
+                    break
+                pfx_seen.setdefault(id(p_), [0, 0])[0] += 1
+                try:
+                    ok, g2 = alarm.guarded(case_timeout, ctx.immediate_mutants, mode, sp, rb, 5 if quick else None, p_, 5)
+                except Exception:
+                    ok, g2 = True, None
+                if ok and g2 is not None and g2[1] and g2[2] != widths and any(x[3] for x in g2[1]):
+                    ck.count("phase1d-prefixed-variant-with-other-widths.%s" % name)
+                    pfx_seen[id(p_)][1] += 1
+                    run_mutants(mode, g2[1], g2[2], 0.25, g2[3])
+        for mode, bs, mem in later:
+            if time.time() >= tb_end - 0.15 * boundary_s:
+                ck.count("phase1d-cut(budget).%s" % name)
+                break
+            ck.count("phase1d-register-count-or-no-immediate.%s" % name)
+            nq[0] += 1
+            kk[0] += 1
+            one_sequence(mode, [bs], nq[0], sids=bsids(mem))
+            if not mem and len(pool) < 96:
+                pool.append((mode, bs))
+        nchain = 0
+        while pool and time.time() < tb_end - 0.08 * boundary_s and nchain < (12 if quick else 400):
+            mode = rb.choice(pool)[0]
+            cand = [b for m_, b in pool if m_ == mode]
+            seq = [rb.choice(cand) for _ in range(rb.choice([2, 2, 3, 4]))]
+            ck.count("phase1d-chain.len%d" % len(seq))
+            nq[0] += 1
+            kk[0] += 1
+            nchain += 1
+            one_sequence(mode, seq, nq[0], sids=bsids())
+        for mode, muts, widths, mem in later2:
+            if time.time() >= tb_end:
+                ck.count("phase1d-cut(budget).%s" % name)
+                break
+            ck.count("phase1d-specs-with-other-immediate.%s" % name)
+            run_mutants(mode, muts, widths, 0.0, mem)
+        nseq = nq[0]
+        st["phase1d_sequences"] = st["sequences"]
+        st["phase1d_s"] = round(time.time() - tb0, 2)
+        # the other phases split what is left of the slice
+        start = time.time()
+        slice_s = max(0.1, slice_end - start)
+    _p1d = st.get("phase1d_sequences", 0)
     # phase 1c: dependency-dense sequences.  Every mnemonic with semantics is the LAST instruction of a sequence
     # whose first instructions copy a register b into one of its operand registers a and then overwrite b
     # (Ctx.gen_dep), so that b means two things in the block: semantics that push an operand through the map
@@ -1601,7 +2086,7 @@ def _run_isa(ck, ctx, st, stats, r, quick, start, slice_s, slice_end, alarm, cas
         if cut:
             break
         ck.count("phase1c-rounds-completed.%s" % name)
-    st["phase1c_sequences"] = st["sequences"]
+    st["phase1c_sequences"] = st["sequences"] - _p1d
     st["phase1c_mnemonics_last"] = len(dep_last)
     st["phase1c_mnemonics_total"] = len(set((m, x) for m, x, _ in dep_todo))
     ck.count("phase1c-mnemonics-as-last-instruction.%s" % name, len(dep_last))
@@ -1636,7 +2121,7 @@ def _run_isa(ck, ctx, st, stats, r, quick, start, slice_s, slice_end, alarm, cas
             continue
         nseq += 1
         one_sequence(mode, [got[0]], nseq, sids=list(range(NSTATES)))
-    st["phase1_sequences"] = st["sequences"] - st["phase1c_sequences"]
+    st["phase1_sequences"] = st["sequences"] - st["phase1c_sequences"] - _p1d
     # phase 1b: for every mnemonic (quick: one spec per mnemonic, capped; thorough: every spec) a directed pair
     # [X, Y] where X writes a register that Y reads: finds, whatever the seed, the semantics that evaluate an
     # operand twice or otherwise depend on the symbolic map they are built on
@@ -1664,7 +2149,7 @@ def _run_isa(ck, ctx, st, stats, r, quick, start, slice_s, slice_end, alarm, cas
             continue
         nseq += 1
         one_sequence(mode, bss, nseq)
-    st["phase1b_sequences"] = st["sequences"] - st["phase1_sequences"] - st["phase1c_sequences"]
+    st["phase1b_sequences"] = st["sequences"] - st["phase1_sequences"] - st["phase1c_sequences"] - _p1d
     # phase 2: random sequences
     cap = nseq + (80 if quick else 10 ** 9)
     while nseq < cap and time.time() < slice_end:
@@ -1682,6 +2167,7 @@ if __name__ == "__main__":
     import json as _json
     tier = sys.argv[1] if len(sys.argv) > 1 else "quick"
     budget = float(sys.argv[2]) if len(sys.argv) > 2 else (70.0 if tier == "quick" else 900.0)
+    bbudget = float(sys.argv[3]) if len(sys.argv) > 3 else 0.17 * budget
     ck = Check("C02", tier)
     _rd = os.environ.get("MAP_ISA_REPLAYS", "/tmp/map/isa/replays")     # standalone: keep /verif/replays clean
     os.makedirs(_rd, exist_ok=True)
@@ -1691,7 +2177,7 @@ if __name__ == "__main__":
         _n[0] += 1
         return os.path.join(_rd, "C02-%d-%d.json" % (seed(), _n[0]))
     ck.replay_path = _replay_path
-    stats = run(ck, tier, rng("C02-isa"), budget)
+    stats = run(ck, tier, rng("C02-isa"), budget, bbudget)
     print("%-8s %5s %6s %6s %6s %6s %6s %5s  %s" % ("isa", "seqs", "evals", "nontr", "exc", "symb", "fail", "mnem", "exceptions"))
     for n in stats["isas"]:
         v = stats["per_isa"][n]
